@@ -81,6 +81,10 @@ class Scatterers(Scatterer):
     def add(self, scatterer):
         self.scatterers.append(scatterer)
 
+    @property
+    def center(self):
+        return np.array([s.center for s in self.scatterers]).mean(0)
+
     def __getitem__(self, key):
         return self.scatterers[key]
 
